@@ -31,6 +31,7 @@ EXPLANATION = (
     'dict.keys() is sorted. R8: registered methods of str/array/dict/int/bool equal docs/yaml/elementary/*.yml and each is argument-checked with tag-preserving wrappers. '
     'R9: the decision table of array.get over the ordering worlds of (index, -len) and (index, len) returns held[index] exactly for -len <= index < len, else the fallback / InvalidArguments; str.format placeholders likewise for index < len. R10: in every interpreter function/method with an optional positional argument typed `object` (get_variable, dict.get, array.get, summary, subproject.get_variable, meson.get_*_property) the argument is never tested by truthiness, also in same-class helpers it is handed to. '
     'R11: get_variable() and subproject.get_variable() return <interpreter>.variables[name] on the found row (not an accessor that also resolves builtins or raises another exception) and handle exactly KeyError on the miss row. '
+    'R12: in the evaluator a raising `key in table` guard and the following store into the same table use the same key expression (duplicate dictionary keys / keyword arguments are errors). R13: the regex of str.underscorify matches exactly the single characters outside [a-zA-Z0-9]. '
     'Does NOT decide: the value a particular program yields, arithmetic on concrete numbers, .format()/f-string rendering, semantics delegated to Python str/list methods, '
     'subdir()/subproject() scoping, and that `int` operand guards also admit Python bools (documented legacy for integers).')
 ASSUMPTIONS = [
@@ -54,5 +55,7 @@ RULES = [
     Rule('C01.R8', 'documented method sets of str/array/dict/int/bool are registered and argument-checked', c01_lit.r8),
     Rule('C01.R9', 'documented index bounds: array.get accepts exactly -len <= i < len, format placeholders i < len', c01_args.r9),
     Rule('C01.R10', 'presence of an optional object-typed argument is decided by identity with None, never by truthiness', c01_args.r10),
+    Rule('C01.R12', 'a duplicate-key guard tests the key under which the entry is stored', c01_args.r12),
+    Rule('C01.R13', 'str.underscorify replaces exactly the characters outside [a-zA-Z0-9]', c01_args.r13),
     Rule('C01.R11', 'get_variable(name, fallback) reads exactly the variable table; a miss is the KeyError that selects the fallback', c01_args.r11),
 ]
